@@ -1,5 +1,93 @@
 import JF.Driver.Core
+import JF.Model.Periodic
+/-
+Component `pbc`: the periodic-boundary model (`JF.Model.Periodic`) in the binary64 reading.
+
+Request lines (floats as uint64 bit patterns, integers as decimals):
+  cubic    <dim> <L>            <op …>     HypercubicSetting(dimension=dim, system_length=L), cubic class
+  cubicsim <dim> <L>            <op …>     same set-up, but the HypercuboidPeriodicBoundaries class on the
+                                           "similar module" state written by `_set_similar_settings`
+  cuboid   <dim> <n> <L1 … Ln>  <op …>     HypercuboidSetting(system_lengths=[L1..Ln], dimension=dim)
+  fmodK <x> <y>                            self-check of the kernel-reducible fmod
+ops:
+  pos_entry <x> <i> | sep_entry <s> <i> | next <x> <i>
+  pos <k> <x1 … xk> | sep <k> <s1 … sk> | sepvec <k> <r1 … rk> <m> <t1 … tm>
+Reply: result floats (bit patterns) separated by blanks, or `err:IndexError`, or the set-up error token.
+Every request is evaluated with `Ops.float` and with `Ops.floatK`; if the two differ the reply is `ops-mismatch`.
+-/
 namespace JF.Driver
-/-- component `pbc` (stub until its model is written) -/
-def pbcComp : Comp := Comp.pure fun _ => "unimplemented"
+open JF JF.Periodic
+
+private def showL (l : List Float) : String := joinSp (l.map bits)
+private def showO (r : Option (List Float)) : String :=
+  match r with | some l => showL l | none => "err:IndexError"
+private def showO1 (r : Option Float) : String :=
+  match r with | some x => bits x | none => "err:IndexError"
+
+/-- split `<k> <x1 … xk> rest` -/
+private def takeVec (a : List String) : Option (List Float × List String) :=
+  match a with
+  | k :: rest =>
+    let n := nat! k
+    if rest.length < n then none else some ((rest.take n).map fl, rest.drop n)
+  | [] => none
+
+private def cubicOp (o : Ops Float) (c : Cubic Float) : List String → String
+  | ["pos_entry", x, i] => bits (c.correctPositionEntry o (fl x) (int! i))
+  | ["sep_entry", s, i] => bits (c.correctSeparationEntry o (fl s) (int! i))
+  | ["next", x, i] => bits (c.nextImage (fl x) (int! i))
+  | "pos" :: a => match takeVec a with
+      | some (p, []) => showL (c.correctPosition o p)
+      | _ => "bad-op"
+  | "sep" :: a => match takeVec a with
+      | some (p, []) => showL (c.correctSeparation o p)
+      | _ => "bad-op"
+  | "sepvec" :: a => match takeVec a with
+      | some (r, b) => match takeVec b with
+        | some (t, []) => showO (c.separationVector o r t)
+        | _ => "bad-op"
+      | _ => "bad-op"
+  | _ => "bad-op"
+
+private def cuboidOp (o : Ops Float) (c : Cuboid Float) : List String → String
+  | ["pos_entry", x, i] => showO1 (c.correctPositionEntry o (fl x) (int! i))
+  | ["sep_entry", s, i] => showO1 (c.correctSeparationEntry o (fl s) (int! i))
+  | ["next", x, i] => showO1 (c.nextImage (fl x) (int! i))
+  | "pos" :: a => match takeVec a with
+      | some (p, []) => showO (c.correctPosition o p)
+      | _ => "bad-op"
+  | "sep" :: a => match takeVec a with
+      | some (p, []) => showO (c.correctSeparation o p)
+      | _ => "bad-op"
+  | "sepvec" :: a => match takeVec a with
+      | some (r, b) => match takeVec b with
+        | some (t, []) => showO (c.separationVector o r t)
+        | _ => "bad-op"
+      | _ => "bad-op"
+  | _ => "bad-op"
+
+private def pbcWith (o : Ops Float) : List String → String
+  | "cubic" :: d :: L :: op =>
+      match Cubic.init o (int! d) (fl L) with
+      | .ok c => cubicOp o c op
+      | .error e => e
+  | "cubicsim" :: d :: L :: op =>
+      match Cubic.init o (int! d) (fl L) with
+      | .ok c => cuboidOp o (c.similar o) op
+      | .error e => e
+  | "cuboid" :: d :: a =>
+      match takeVec a with
+      | some (Ls, op) =>
+        match Cuboid.init o (int! d) Ls with
+        | .ok c => cuboidOp o c op
+        | .error e => e
+      | none => "bad-op"
+  | _ => "bad-op"
+
+def pbcComp : Comp := Comp.pure fun
+  | ["fmodK", x, y] => bits (ffmodK (fl x) (fl y))
+  | a =>
+    let r := pbcWith Ops.float a
+    let rK := pbcWith Ops.floatK a
+    if r == rK then r else "ops-mismatch"
 end JF.Driver
